@@ -596,25 +596,40 @@ func (g *gen) resumeHistory() {
 
 func replay(t *testing.T, tr *vhlib.Trace, ops []vhlib.ParsedLine, thorough bool) {
 	var w *world
-	defer func() {
+	var lw *l2world
+	batch := 100
+	closeAll := func() {
+		if lw != nil {
+			lw.close()
+			lw = nil
+		}
 		if w != nil {
 			w.close()
 		}
-	}()
+	}
+	defer func() { closeAll() }()
 	for _, op := range ops {
 		switch op.Op {
 		case "reset":
-			if w != nil {
-				w.close()
-			}
+			closeAll()
 			profile := op.Args["profile"]
 			if profile == "" {
 				profile = "S"
+			}
+			if profile == "I" {
+				profile = "S"
+				if b := op.Int("batch"); b > 0 {
+					batch = b
+				}
 			}
 			w = newWorld(t, profile, thorough)
 			tr.Line(op.Raw, "")
 		case "op":
 			if w == nil {
+				continue
+			}
+			if op.Args["name"] == "I.SyncDB" {
+				replaySync(w, &lw, tr, op, batch)
 				continue
 			}
 			// webhook URLs point at the sink of the run that produced the line; rewrite them to this run's sink
@@ -664,7 +679,7 @@ func TestEngine(t *testing.T) {
 	r := vhlib.NewRand(cfg.Seed)
 	only := cfg.Extra["only"] // restrict to one history kind (debugging)
 	for i := 0; i < cfg.N; i++ {
-		kinds := []string{"S", "M", "S", "Mh", "R", "S", "M", "V", "Md", "B"}
+		kinds := []string{"S", "M", "I", "Mh", "R", "S", "M", "V", "Md", "B"}
 		if cfg.Extra["c18"] == "1" {
 			// C18: histories with managers and restarts
 			kinds = []string{"M", "Mh", "V", "M", "Md", "M", "Mh", "V", "M", "S"}
@@ -699,6 +714,8 @@ func TestEngine(t *testing.T) {
 				g.resumeHistory()
 			case "B":
 				g.bigHistory()
+			case "I":
+				g.indexerHistory(4)
 			}
 		}()
 	}
